@@ -162,6 +162,7 @@ def gen_cases(tier, seed):
         cfg["offnorm"] = bool(rng.random() < 0.3)
         cfg["rebuild"] = bool(rng.random() < 0.3)
         cfg["relevel"] = bool(rng.random() < 0.15)
+        cfg["reset_hist"] = [None, None, "before-build", "build-reset-reset", "setting-then-reset"][int(rng.integers(5))]
         cfg["nalpha"] = int(rng.integers(1, 5))
         case = {"id": "g%03d-%s-l%d-%s-L%d" % (i, cfg["mol"], cfg["level"], cfg["prune"], cfg["lmax"]), "cfg": cfg,
                 "seed": seed, "idx": 100 + i, "_threads": 2, "_weight": float(natm * (1 + cfg["level"]) ** 1.5),
@@ -679,6 +680,33 @@ def run_case(case, rec):
     worst, info = _check_ylm(rec, ind, L, st)
     rt = _check_roundtrip(rec, ind, L, st, rng, int(cfg["nalpha"]), info)
     first = _snapshot(g)
+    # ---- history: a grids object built (or not yet built) for ANOTHER geometry and then re-targeted with reset(mol) must
+    # give exactly the grid of a fresh object (SCF.reset / as_scanner / geometry optimisers do this) - added after a seeded
+    # early return in CiderGrids.reset that dropped the re-targeting when no indexer existed at that moment
+    if cfg.get("reset_hist") and path == "advertised":
+        from pyscf import gto
+
+        from ciderpress.pyscf.gen_cider_grid import CiderGrids
+        molB = gto.M(atom=[(mol.atom_symbol(i), tuple(mol.atom_coord(i) + 0.4 * (i + 1) * np.array([0.3, -0.5, 0.8])))
+                           for i in range(mol.natm)], unit="Bohr", basis=mol.basis, ecp=mol.ecp, spin=mol.spin, charge=mol.charge,
+                     verbose=0)
+        pat = cfg["reset_hist"]
+        g2 = _apply(CiderGrids(molB, lmax=L), cfg, None, drop_default)
+        if pat == "build-reset-reset":
+            g2.build(**bk)
+            g2.reset(molB)
+            g2.reset(mol)
+        elif pat == "setting-then-reset":
+            g2.build(**bk)
+            g2.level = (int(cfg["level"]) + 1) % 3
+            g2.level = cfg["level"]
+            g2.reset(mol)
+        else:  # reset before the first build
+            g2.reset(mol)
+        g2.build(**bk)
+        rec.require("reset_retargets_molecule", g2.mol is mol and _same(first, _snapshot(g2)),
+                    mechanism="CiderGrids.reset:molecule-not-retargeted[%s]" % pat)
+        rec.tag("history", "reset(mol):" + pat)
     sample.update({"points": s0["n"], "size": s0["size"], "padding": s0["padding"], "nrad": int(ind.nrad),
                    "coords_reconstruction_err": s0["recon_err"], "ylm_gram_err": worst["gram"], "dirs_err": worst["dirs"],
                    "ylm_minus_pyscf_real_sph": worst["conv"], "c_roundtrip_err": rt, "shell_lmax": {str(k): v for k, v in info.items()}})
